@@ -82,7 +82,7 @@ class KeyObj(Obj):
         mult = (1 if a == b else 2) * (1 if si[0] == si[1] else 2) * (1 if sj[0] == sj[1] else 2)
         super().__init__(MODREP, {
             "voigt": I(a, b), "v": I(a, b), "standard": I(*si, *sj), "s": I(*si, *sj), "i": mk(a, si), "j": mk(b, sj),
-            "is_shear": shear, "is_longitudinal": (a == b and not shear), "is_off_diagonal": (a != b and not shear),
+            "__fields__": ["i", "j"], "is_shear": shear, "is_longitudinal": (a == b and not shear), "is_off_diagonal": (a != b and not shear),
             "multiplicity": sp.Integer(mult), "calc_type": EnumV("cij.util.voigt:ElasticModulusCalculationType",
                                                                  "SHEAR" if shear else ("LONGITUDINAL" if a == b else "OFF_DIAGONAL"))}, label=name)
         self.const_key = name
@@ -212,7 +212,13 @@ def tensor_seeds(calc, keys=None):
 
 
 def physics_seeds(model: Model, pstat_atom=True):
-    roles, _ = interpolate_modes_roles(model)
+    # the order in which interpolate_modes returns (omega, gamma, V dgamma/dV) is decided by R01.10 / C11 (which fold
+    # interpolate_modes themselves and fail there); every other rule starts from the documented order when that fold
+    # meets a construct it cannot follow
+    try:
+        roles, _ = interpolate_modes_roles(model)
+    except AnalysisError:
+        roles = [0, 1, 2]
     ext = Obj(QHACALC, label="qha calculator")
     adapter = Obj(ADAPTER, {"calculator": ext})
     vol = Obj(QVOL, {"calculator": ext})
